@@ -25,13 +25,15 @@ pub struct MapCfg {
 	pub dollar_targets: bool,
 	/// all nested classes have their parent in the set
 	pub closed_nesting: bool,
+	/// chance (percent) that the mapping set itself carries a comment (the header section of a tiny v2 file)
+	pub top_doc_pct: usize,
 }
 
 impl MapCfg {
 	pub fn basic(n: usize) -> MapCfg {
 		MapCfg { n, max_classes: 4, max_members: 3, max_params: 2, nest_depth: 2, absent_pct: 20, doc_pct: 25,
 			unicode: false, dummy_names: false, extended_targets: false, multiline_docs: true, param_src_names: true,
-			dollar_targets: false, closed_nesting: true }
+			dollar_targets: false, closed_nesting: true, top_doc_pct: 0 }
 	}
 }
 
@@ -211,5 +213,7 @@ pub fn gen_mappings(r: &mut Rng, cfg: &MapCfg) -> GMappings {
 		classes.push(GClass { names, doc: doc(r, cfg), fields, methods });
 	}
 	r.shuffle(&mut classes);
-	GMappings { ns, doc: None, classes }
+	// (drawn last so that the streams of generators that leave `top_doc_pct` at 0 are unchanged)
+	let top = if cfg.top_doc_pct > 0 && r.chance(cfg.top_doc_pct, 100) { Some((*r.pick(&["set doc", "two\nlines", "", "tab\there \\ backslash"])).to_owned()) } else { None };
+	GMappings { ns, doc: top, classes }
 }
